@@ -4,6 +4,20 @@ import json, glob, os, re
 V = os.path.dirname(os.path.abspath(__file__))
 # what had to be strengthened before the check caught the change (hand-maintained)
 STRENGTHENED = {
+ "C01e-m1": "look-alike transform matrices (determinant exactly / nearly +-1 but not orthogonal, shears, unimodular, rotation plus tiny shear) under Transform and RotateUnion in the tree generator, with a parameter-derived probe oracle",
+ "C02e-m1": "operands with flat / point bounding boxes under every box-building combinator; box-free pointwise-minimum reference computed from the leaves",
+ "C03e-m1": "polygon families on the split lines of their own quadtree (stairs, steps, skylines, hulls of grid crossings) with the exact signed-distance and Lipschitz oracles",
+ "C03e-m3": "operand lists with nil entries in every position (literal nil and every constructor that returns nil), compared with the nil-free call",
+ "C16e-m3": "nil-argument union strata (see C03e-m3)",
+ "C04e-m2": "the oracle is built from the VERTEX LIST, never from VertexToLine; short-edge strata (1e-9..few ulp of the extent), tiny polygons; a refused simple polygon is a failing input",
+ "C06e-m2": "features exactly on (and within 4e-13 of) the lattice the renderer really samples: through-holes, L-shapes, notches, stairs; no emitted triangle may have identical or collinear vertices; normals on CSG shapes",
+ "C07e-m1": "independent scaled-box and cube-covers-box oracles computed in the harness; every family again translated 2x..1000x away from the origin on 1-3 axes",
+ "C10e-m2": "aliased-construction groups (shapes built from one another, all still in use, hammered together) and a read-only heap walk reporting a map / slice / channel held by two structs with no mutex in common",
+ "C12e-m2": "20 kinds of odd output paths (empty, trailing slash, '.', parent is a file, too long, NUL, read-only, symlink loops, /proc, /sys ...) as single calls and in goroutine-count histories",
+ "C15e-m1": "write schedules around the buffer thresholds for To3MF / ToDXF / ToSVG (large write while pending, size sweep, renderer-owned slices, nested and concurrent writers)",
+ "C18e-m1": "3D points whose distance from the axis equals a profile vertex ordinate or quadtree cut bit for bit (and 1 ulp either side), judged by the exact crossing number; the 2D profiles on vertex-level grids",
+ "C19e-m1": "sharp features (cone tips, spikes, pyramids, wedges, fins; apex on / near lattice points, edges, faces) and a triangle-level stratum on caller-positioned vertex buffers (collinear and coincident quad vertices)",
+ "C20e-m3": "synthetic index-triple sets over the whole int range (2^21, 2^31, 2^42, 2^53, 2^62 boundaries, negative), engineered carry pairs, all reorderings / rotations, changed copies that must compare unequal; Less must be a strict total order",
  "C01d-m1": "aliasing histories: shapes built from caller-owned slices / pointer lists / Parms structs which the caller then overwrites, re-slices, appends to or zeroes, compared with a twin built from a private copy",
  "C01d-m2": "parameter-regime strata for every primitive without a model (spiral, cams, flange, rack, spline, voxel, meshes) with oracles that take their region from the constructor's PARAMETERS (witness points along the whole parameter range, outline tracing) and a wider box-relative search (4x, 12x)",
  "C04d-m1": "build histories in one process: caller-owned segment slices re-used after other builds, earlier meshes re-evaluated, two meshes evaluated alternately; caller data must stay bit-identical",
